@@ -336,6 +336,11 @@ class C12(Spec):
                 g[rng.randrange(1, len(parts))] = rng.choice([-1, 2])
                 c['gaps'] = g
                 c['s0'] = max(c['s0'], 3)       # sample positions stay non-negative
+            elif rng.random() < 0.03 and len(parts) > 1:
+                # malformed: one Events object of the stream has another sampling rate (fs/q)
+                q = [1] * len(parts)
+                q[rng.randrange(1, len(parts))] = rng.choice([2, 3])
+                c['fsq'] = q
             yield c
 
     # ------------------------------------------------------------------ lines
@@ -345,10 +350,11 @@ class C12(Spec):
             pos = c['s0']
             off = 0
             gaps = c.get('gaps') or [0] * len(c['chunks'])
-            for k, g in zip(c['chunks'], gaps):
+            fsq = c.get('fsq') or [1] * len(c['chunks'])
+            for k, g, q in zip(c['chunks'], gaps, fsq):
                 a, b = pos + g, pos + g + k
                 evs = [e + c['s0'] + (a - (c['s0'] + off)) for e in c['events'] if off <= e < off + k]
-                lines.append(f"ev {a} {b} {','.join(map(str, evs)) if evs else '-'}")
+                lines.append(f"ev {a} {b} {','.join(map(str, evs)) if evs else '-'}" + (f' {q}' if q != 1 else ''))
                 pos = b
                 off += k
             return lines
@@ -487,8 +493,9 @@ class C12(Spec):
             if dead:
                 lines.append('err Dead')
                 continue
-            _, a, b, evs = ml.split()
+            _, a, b, evs, *q = ml.split()
             evs = [] if evs == '-' else [int(v) for v in evs.split(',')]
+            fs_in = FS / int(q[0]) if q else FS
             # An Events block is a set of (kind, sample) tuples: nothing requires them to be listed
             # chronologically.  'rev' lists them newest first, 'split' lists alternate events first
             # (like "all rising before all falling"); the model (a count per window) is order-free.
@@ -499,7 +506,7 @@ class C12(Spec):
                 evs = evs[0::2] + evs[1::2]
             n0 = len(out)
             try:
-                co.send(P.Events([('e', s) for s in evs], int(a), int(b), FS))
+                co.send(P.Events([('e', s) for s in evs], int(a), int(b), fs_in))
             except StopIteration:
                 lines.append('err Dead')
                 dead = True
@@ -535,7 +542,7 @@ class C12(Spec):
     # ------------------------------------------------------------------ oracle
     @staticmethod
     def _wellformed(c):
-        if any(c.get('gaps') or []):
+        if any(c.get('gaps') or []) or any(q != 1 for q in c.get('fsq') or []):
             return False
         if c['kind'] == 'iirfilter' and c['chunks'] and c['chunks'][0] == 0:
             return False
@@ -651,6 +658,7 @@ class C12(Spec):
         for _ in range(40):
             d = dict(c)
             d.pop('gaps', None)
+            d.pop('fsq', None)
             m = max(1, n + rng.randint(-2, 2))
             parts = rng.chunks(m, 8)
             d['chunks'] = parts
@@ -674,6 +682,7 @@ class C12(Spec):
         def mk(parts, **kw):
             d = dict(c)
             d.pop('gaps', None)
+            d.pop('fsq', None)
             d['chunks'] = parts
             if ev:
                 tot = sum(parts)
@@ -710,7 +719,8 @@ class C12(Spec):
     def describe(self, c):
         if c['kind'] == 'event_rate':
             return (f"event_rate(block_size={c['p1']}, block_step={c['p2']}) start={c['s0']} spans={c['chunks']} "
-                    f"events={c['events']}")
+                    f"events={c['events']}" + (f" order={c['evorder']}" if c.get('evorder') else '')
+                    + (f" gaps={c['gaps']}" if c.get('gaps') else '') + (f" fs/q={c['fsq']}" if c.get('fsq') else ''))
         return (f"{c['kind']}(p1={c['p1']}, p2={c['p2']}) on {c['arr']}{'' if c.get('lab', 1) else ' (unlabelled)'} stream N={c['N']} s0={c['s0']} "
                 f"chunks={c['chunks']}" + (f" gaps={c['gaps']}" if c.get('gaps') else ''))
 
